@@ -25,7 +25,7 @@ RULE = ("pairs of documents: equal pairs (same data, permuted keys, rebuilt tree
 ASSUMPTIONS = ["int vs float with the same numeric value is UNDETERMINED (JSON calls both 'number'): such pairs are never judged",
                "NaN is never generated",
                "XML equality is the notion stated in C12 (text modulo surrounding whitespace); CSV pairs avoid blank-row-only tables"]
-MINIMUMS = {"quick": {"cli_on_a_terminal": 250, "equal_pairs": 700, "unequal_pairs": 4000, "cli_inprocess": 2500, "subprocess_runs": 24, "one_atom_pairs": 500},
+MINIMUMS = {"quick": {"binary:different": 200, "cli_on_a_terminal": 250, "equal_pairs": 700, "unequal_pairs": 4000, "cli_inprocess": 2500, "subprocess_runs": 24, "one_atom_pairs": 500},
             "thorough": {"cli_on_a_terminal": 2000, "equal_pairs": 8000, "unequal_pairs": 50000, "cli_inprocess": 25000, "subprocess_runs": 300,
                          "one_atom_pairs": 8000}}
 
@@ -48,6 +48,7 @@ def plan(tier, seed):
     specs.append({"stratum": "xml-csv", "n": 300 if q else 6000, "k": 0, "clean": True})
     for k in range(2 if q else 4):
         specs.append({"stratum": "data-files", "n": 250 if q else 4000, "k": k, "clean": True})
+    specs.append({"stratum": "binary-scalars", "n": 400 if q else 6000, "k": 0, "clean": True, "shrink": False})
     for k in range(2 if q else 8):
         specs.append({"stratum": "subprocess", "n": 16 if q else 64, "k": k, "clean": True, "shard_timeout": 1200, "case_timeout": 60})
     return specs
@@ -164,6 +165,21 @@ def gen_cases(spec, ctx):
             for ds in gen.DS:
                 yield {"family": "json", "a": a, "b": b, "ds": ds, "le": r.choice(gen.LE), "cli": True, "what": what}
         return
+    if st == "binary-scalars":
+        # plist <data> elements (XML and binary plists) and YAML !!binary scalars reach the loaders as bytes; the values below are
+        # text, valid non-ASCII UTF-8, and byte strings that are not UTF-8 at all, and the two files differ in one of those parts
+        blobs = [b"plain", b"caf\xc3\xa9", b"\xff\x00\x10", b"\xfe\x00\x10", b"head\xff", b"head\xfe", b"\x80", b"\x81", b"", b"a"]
+        for _ in range(spec["n"]):
+            t = r.choice(["plist", "plist", "yaml"])
+            x, y = r.choice(blobs), r.choice(blobs)
+            if r.random() < 0.25:
+                y = x
+            shape = r.choice(["value", "list", "nested"])
+            def doc(b_):
+                return {"value": {"blob": b_, "n": 7}, "list": [b_, "s"], "nested": {"k": {"inner": [2, b_]}}}[shape]
+            yield {"binary": True, "type": t, "x": x.hex(), "y": y.hex(), "shape": shape, "a": 0, "b": 1,
+                   "mode": r.choice([[], [], ["-e"], ["-d"], ["-k"]]), "variant": r.randrange(6)}
+        return
     if st == "data-files":
         # the same questions asked of documents that reach the engine through the real JSON / JSON5 / YAML / pickle loaders, in
         # the dialects formats.write() produces (YAML multi-document streams, anchors, explicit scalar styles, JSON5 syntax ...)
@@ -257,7 +273,48 @@ def cli_args(case):
     return args
 
 
+def check_binary(case, ctx):
+    """Only the verdict is judged: documents that differ must never be reported as equal (exit status 0)."""
+    import plistlib
+    x, y = bytes.fromhex(case["x"]), bytes.fromhex(case["y"])
+
+    def doc(b_):
+        return {"value": {"blob": b_, "n": 7}, "list": [b_, "s"], "nested": {"k": {"inner": [2, b_]}}}[case["shape"]]
+
+    def write(b_, tag):
+        if case["type"] == "plist":
+            data = plistlib.dumps(doc(b_), fmt=plistlib.FMT_BINARY if case["variant"] % 3 == 2 else plistlib.FMT_XML)
+            return families.tmpfile(data, tag + ".plist")
+        import yaml
+        return families.tmpfile(yaml.safe_dump(doc(b_)).encode("utf-8"), tag + ".yaml")
+    pa, pb = write(x, "-bin-a"), write(y, "-bin-b")
+    res = monitors.run_main(["--no-status"] + case["mode"] + [pa, pb])
+    if ctx is not None:
+        ctx.count("binary_scalar_comparisons")
+        ctx.count("binary:" + ("equal" if x == y else "different"))
+        ctx.seen(case, nontrivial=x != y)
+
+    def is_text(b_):
+        try:
+            b_.decode("utf-8")
+            return True
+        except UnicodeDecodeError:
+            return False
+    if x != y:
+        if res.exc is None and res.rc == 0:
+            return [{"kind": "different-binary-values-reported-as-equal", "x": case["x"], "y": case["y"], "type": case["type"],
+                     "stdout": res.out[:200]}]
+    elif is_text(x) and res.exc is None and res.rc != 0:
+        return [{"kind": "cli-exit-status", "equal": True, "rc": res.rc, "stderr": res.err[-200:]}]
+    return []
+
+
 def check(case, ctx):
+    if case.get("binary"):
+        try:
+            return check_binary(case, ctx)
+        except Exception as ex:  # noqa
+            return [core.exc_diag("harness-exception", ex)]
     eq = expected_equal(case)
     if eq is None:
         if ctx is not None:
